@@ -711,7 +711,7 @@ def root_index(snap, idx):
 REF_ARG_KEYS = ("t", "x", "y", "p", "d", "parent")
 # ops that must not change any pre-existing object at all
 OBSERVERS = ("clone", "clone_twice", "export_leaf", "template_clone", "get_values", "hold_list", "validate", "doc_validate",
-             "validate_custom", "validate_keep", "validate_rerun", "validate_optional", "save", "load", "restart", "advance", "damage_file", "reseed", "add_raising_rule")
+             "validate_custom", "validate_keep", "validate_rerun", "validate_optional", "save", "load", "restart", "advance", "damage_file", "reseed", "add_raising_rule", "custom_again")
 
 
 def footprint(ctx):
@@ -953,7 +953,7 @@ def valid_prelude(U, interp, env, mem):
 
 
 VALIDATION_OPS = ("validate", "doc_validate", "validate_custom", "validate_keep", "validate_rerun",
-                  "validate_optional")
+                  "validate_optional", "custom_again")
 
 
 def mon_valid(ctx):
@@ -967,6 +967,19 @@ def mon_valid(ctx):
             return None
         out = ctx.outcome[1]
         if ctx.name == "validate_keep":
+            return None
+        if ctx.name == "validate_custom" and "kept_expected" in out and \
+                out["kept_issues"] != out["kept_expected"]:
+            return ("valid.private", "a rule registered on a custom Validation is applied only while "
+                    "somebody else holds the function: %r vs %r" %
+                    (out["kept_issues"][:2], out["kept_expected"][:2]))
+        if ctx.name == "custom_again":
+            if out["now"] != out["stored"]:
+                return ("valid.private", "the issue list of a kept custom Validation changed although "
+                        "nobody ran it: %r then, %r now" % (out["stored"][:2], out["now"][:2]))
+            if "rerun" in out and out["rerun"] != out["twin"]:
+                return ("valid.repeatable", "a kept custom Validation, run again, reports %r; a new one "
+                        "with the same rule reports %r" % (out["rerun"][:2], out["twin"][:2]))
             return None
         if ctx.name in ("validate", "doc_validate", "validate_rerun", "validate_optional"):
             if out["issues"] != out["again"] or out["issues"] != out["rerun"]:
